@@ -11,6 +11,8 @@ params:
   rendezvous  a second, independent f_apply is resolved from another thread 100 ticks after the last input; the first
               application's function waits (up to 1500 ticks) for the second one's function to have started
   base_exc    the failing inputs fail with an exception deriving from BaseException only
+  futvals     {input index (>= 1): "done" | "failed" | "pending"}: the VALUE that input resolves with is itself a
+              future in that state (f_apply hands values over as they are: only the inputs are awaited, one level)
   kwnames     names of the keyword arguments (default k1, k2); any identifiers f_apply can be given
 
 Events: Cfg, InputSet, FnCalled, FnRaise, Result, End (see spec/ApplyObs.tla).  Ids are assigned by object
@@ -64,6 +66,15 @@ def build(p):
         from concurrent.futures import Future
         from more_executors.futures import f_apply
         vals = [Val(i) for i in range(n + 1)]
+        for key, kind in (p.get("futvals") or {}).items():
+            i = int(key)
+            if 1 <= i <= n:
+                g = Future()
+                if kind == "done":
+                    g.set_result(Val(1000 + i))
+                elif kind == "failed":
+                    g.set_exception(ApplyErr("value of input %d" % i))
+                vals[i] = g
         excs = [(ApplyBaseErr if p.get("base_exc") else ApplyErr)("input %d" % i) for i in range(n + 1)]
         fnexc = ApplyErr("fn")
         val_ids = {id(v): 200 + i for i, v in enumerate(vals)}
